@@ -164,6 +164,8 @@ def run_case(run, drv, case_seed, tier):
         kind = "v1" if ver == "1" else ("a2" if ver == "2" else "a3")
         if kind != "v1" and rng.random() < 0.4:
             kind += "i"         # the keyword given as an integer, as documented
+        if len(kw.get("announce", [])) == 1 and rng.random() < 0.6:
+            kw["announce"] = kw["announce"][0]      # documented: `announce : str` for one tracker
         raw_kw = impl.create(kind, root, out_kw, progress=0, **kw)
         ref = normalized(raw_kw)
         why = expected_fields(opts, ref)
@@ -172,8 +174,13 @@ def run_case(run, drv, case_seed, tier):
         n_orders = 12 if tier == "quick" else 40
         shapes = set()
         outname = rng.choice(["cli.torrent", "cli.torrent", "weekly.tor", "noext", "x.TORRENT"])
-        for i, (argv, shape) in enumerate(orders(rng, opts, root, os.path.join(box, outname), n_orders)):
-            out = os.path.join(box, outname)
+        outdir = box
+        if rng.random() < 0.2:
+            # the output path lies inside the content directory (it does not exist while the content
+            # is read, and is removed again before the next route runs)
+            outdir = root
+        for i, (argv, shape) in enumerate(orders(rng, opts, root, os.path.join(outdir, outname), n_orders)):
+            out = os.path.join(outdir, outname)
             if os.path.exists(out):
                 os.remove(out)
             sub = rng.choice([["create"], ["new"], []]) if argv[0] != root else ["create"]
@@ -193,6 +200,8 @@ def run_case(run, drv, case_seed, tier):
                           "shape": shape})
             drv.ask("clirec " + hx(root.encode("utf8")) + " " + " ".join(hx(a.encode("utf8")) for a in argv),
                     ("argparse", dict(case, argv=[a.replace(box, "$BOX") for a in argv]), (opts, root, box)))
+        if outdir == root and os.path.exists(os.path.join(outdir, outname)):
+            os.remove(os.path.join(outdir, outname))
         # configuration file route
         cfg = os.path.join(box, "torrentfile.ini")
         out_cfg = os.path.join(box, rng.choice(["cfg.torrent", "cfg.tor", "cfgnoext"]))
